@@ -471,6 +471,13 @@ func (r *Runner) NewInst(cfg ScriptCfg) (*Inst, error) {
 	return in, nil
 }
 
+func recvType(e gw.Event) int {
+	if e.Pt == "proc.recv" {
+		return e.Int(0)
+	}
+	return 0
+}
+
 // hookLogSeq numbers the hook logs written by this driver process.
 var hookLogSeq struct {
 	mu sync.Mutex
@@ -517,7 +524,7 @@ func (i *Inst) dumpHookLog() {
 			gen[e.Tun]++
 		}
 		enc(map[string]interface{}{"ev": "hk", "pt": e.Pt, "u": fmt.Sprintf("%s#%d", e.Tun, gen[e.Tun]), "cid": e.Cid, "role": e.Role, "seq": e.Seq,
-			"found": e.Pt == "gw.enter" && e.Bool(1), "ok": e.Pt == "proc.dialed" && e.Bool(1), "pan": e.Panicking})
+			"found": e.Pt == "gw.enter" && e.Bool(1), "ok": e.Pt == "proc.dialed" && e.Bool(1), "pan": e.Panicking, "t": recvType(e)})
 	}
 }
 
